@@ -5,7 +5,7 @@ IMPORTS = ("From Coq Require Import ZArith List Bool.\n"
            "Import ListNotations. Open Scope Z_scope.")
 CTYPE = "Z * list hev * list (nat * (Z * Z * Z)) * list Z * list Z * bool * Z"
 AGREE = ("  let '(start, l, outs, probe, hs, rl, dc) := c in\n"
-         "  history_agrees false start l outs probe hs rl dc")
+         "  history_agrees VNow start l outs probe hs rl dc")
 
 
 def z(n):
